@@ -1327,6 +1327,10 @@ class PolarsModel(data_algebra.data_model.DataModel):
             split = [s.sort(blocks_in.record_keys) for s in split]
             # capture the record keys
             sk = split[0][blocks_in.record_keys]
+            # rows are matched by position below: every block must hold the same records
+            for si in split:
+                if si[blocks_in.record_keys].rows() != sk.rows():
+                    raise ValueError("blocks do not all hold the same record keys")
         # limit and rename columns
 
         def limit_and_rename_cols(s):
